@@ -170,6 +170,14 @@ CLAIMED = {
         technique="Lean 4 proof (decide +kernel over generated table, lifted) + exhaustive correspondence",
         note="",
     ),
+    "C20": dict(
+        text="Model of the decision logic of ThreadsafeProxy.__getattr__/func_wrapper: attribute kind × situation at call time (caller on the owner's loop?, owner's loop closed?) ↦ {refuse, run here, drop, run on owner and await, queue on owner}. Theorems: the whole table; a call from another loop is never executed on the caller's loop; a closed owner loop ⇒ drop for every callable; "
+        "queued calls run in hand-over order; a queued plain method must return nothing. Tie: the real ThreadsafeProxy + EventLoopThread with real threads: non-callable / plain / value-returning plain / coroutine / raising coroutine × attribute looked up on the caller's or the owner's loop × called from either loop, a burst of 200 (1000) queued calls, calls after the owner's loop was stopped and closed; the method body records its thread and running loop; "
+        "model's predicted action compared with where the body ran and what the caller saw.",
+        ref="6 C20",
+        technique="Lean 4 proof (case analysis of the dispatch table) + differential vs real ThreadsafeProxy/EventLoopThread with real threads",
+        note="partial: thread scheduling, run_coroutine_threadsafe internals and a loop stopping or closing between the is_closed() test and the hand-over are runtime behaviour the model cannot exhibit; the harness provokes them only as tests. ",
+    ),
 }
 
 REASON_WIP = "no check registered yet; the technique applies (design in DESIGN.md section 6) but the model and correspondence for this property are not built at this commit"
